@@ -9,6 +9,9 @@ pub open spec fn min_spec(a: usize, b: usize) -> usize { if a <= b { a } else { 
 // core::cmp::min on usize (rule R-misc)
 pub fn cmp_min(a: usize, b: usize) -> (r: usize) ensures r == min_spec(a, b) { if a <= b { a } else { b } }
 
+// rule R-panic: a function that may panic returns PanicOr; `ret is Panic <==> ..` is then an ordinary postcondition
+pub enum PanicOr<R> { Panic, Ret(R) }
+
 // ===================== engine-V prelude: hex unit (TRUSTED) =====================
 // specification of the output: two digits per byte, high nibble first
 pub open spec fn digit(nib: u8, upper: bool) -> u8 {
@@ -160,6 +163,7 @@ proof fn lemma_hex_concat(a: Seq<u8>, b: Seq<u8>, upper: bool)
             assert(dst@.subrange(2 * src@.len() as int, old(dst)@.len() as int) =~= old(dst)@.subrange(2 * src@.len() as int, old(dst)@.len() as int));
         }
     }
+    proof fn reach_hex_encode_fallback(src: &[u8], dst: Vec<u8>, upper: bool) requires dst@.len() >= 2 * src@.len(), { assert(false); } /*OB:canary.hex_encode_fallback:*/
 
     // extracted from src/hex.rs:39  `fn hex_encode<const UPPER: bool>(src: &[u8], dst: &mut [u8])  [cfg: feature faster-hex OFF]`
     pub fn hex_encode(src: &[u8], dst: &mut Vec<u8>, upper: bool)
@@ -173,6 +177,7 @@ proof fn lemma_hex_concat(a: Seq<u8>, b: Seq<u8>, upper: bool)
         assert(dst@.len() >= src@.len() * 2) /*OB:hex_encode.debug-assertion:C14*/;
         hex_encode_fallback(src, dst, upper);
     }
+    proof fn reach_hex_encode(src: &[u8], dst: Vec<u8>, upper: bool) requires dst@.len() >= 2 * src@.len(), { assert(false); } /*OB:canary.hex_encode:*/
 
     // extracted from src/hex.rs:39  `fn hex_encode<const UPPER: bool>(src: &[u8], dst: &mut [u8])  [cfg: feature faster-hex ON]`
     pub fn hex_encode_with_faster_hex(src: &[u8], dst: &mut Vec<u8>, upper: bool)
@@ -184,7 +189,7 @@ proof fn lemma_hex_concat(a: Seq<u8>, b: Seq<u8>, upper: bool)
             final(dst)@.subrange(2 * src@.len() as int, old(dst)@.len() as int) == old(dst)@.subrange(2 * src@.len() as int, old(dst)@.len() as int), /*OB:hex_encode_with_faster_hex.post.frame:C14*/
     {
         assert(dst@.len() >= src@.len() * 2) /*OB:hex_encode_with_faster_hex.debug-assertion:C14*/;
-        if upper {
+        if upper == true {
             let __r = faster_hex_encode(src, dst, true);
             unwrap_unchecked_unit(__r) /*OB:hex_encode_with_faster_hex.unwrap_unchecked-never-sees-Err:C14*/;
         }  else {
@@ -192,6 +197,7 @@ proof fn lemma_hex_concat(a: Seq<u8>, b: Seq<u8>, upper: bool)
             unwrap_unchecked_unit(__r) /*OB:hex_encode_with_faster_hex.unwrap_unchecked-never-sees-Err:C14*/;
         }
     }
+    proof fn reach_hex_encode_with_faster_hex(src: &[u8], dst: Vec<u8>, upper: bool) requires dst@.len() >= 2 * src@.len(), { assert(false); } /*OB:canary.hex_encode_with_faster_hex:*/
 
     // extracted from src/hex.rs:48  `fn generic_hex<N, const UPPER: bool>( arr: &GenericArray<u8, N>, f: &mut fmt::Formatter<'_>, ) -> fmt::Result where N: ArrayLength + Add<N>, Sum<N, N>: ArrayLength,`
     pub fn generic_hex<N: ArrayLength>(arr: &[u8], f: &mut Fmt, upper: bool)
@@ -267,6 +273,7 @@ proof fn lemma_hex_concat(a: Seq<u8>, b: Seq<u8>, upper: bool)
             }
         }
     }
+    proof fn reach_generic_hex<N: ArrayLength>(arr: &[u8], f: Fmt, upper: bool) requires arr@.len() == N::n(), N::n() * 2 <= usize::MAX, f.out@.len() == 0, { assert(false); } /*OB:canary.generic_hex:*/
 
 proof fn canary() { assert(false); } /*OB:canary:*/
 
